@@ -466,9 +466,64 @@ def gen_callbacks():
     return body
 
 
+def gen_relay():
+    """copy_half / copy_bidi / drain_buffers of src/copy.rs: the loop shapes Relay.v stands for (C01, C04)."""
+    copy = strip_rust(open(os.path.join(REPO, "src/copy.rs")).read())
+    ch = fn_body(copy, "copy_half")
+    # the three select! arms
+    i_stream = ch.find("have_stream =>")
+    i_frames = ch.find("have_frames =>")
+    i_rawfd = ch.find("have_rawfd =>")
+    i_else = ch.find("else =>", i_rawfd if i_rawfd >= 0 else 0)
+    ok_arms = 0 <= i_stream < i_frames < i_rawfd < i_else
+    arm_stream = ch[i_stream:i_frames] if ok_arms else ""
+    arm_rawfd = ch[i_rawfd:i_else] if ok_arms else ""
+    tail = ch[i_else:] if ok_arms else ""
+    buffered_ok = before(arm_stream, r"write_all\s*\(\s*&\s*sbuf\s*\[\s*\.\.\s*len\s*\]\s*\)", r"flush\s*\(") and \
+        bool(re.search(r"if\s+len\s*>\s*0", arm_stream)) and bool(re.search(r"else\s*\{\s*break", arm_stream))
+    m = re.search(r"while\s+pending\s*>\s*0\s*\{", arm_rawfd)
+    splice_loop = False
+    if m and re.search(r"let\s+mut\s+pending\s*=\s*len\s*;", arm_rawfd[:m.start()]):
+        blk = block_after(arm_rawfd[m.start():], r"while\s+pending\s*>\s*0\s*\{")
+        wr = re.search(r"let\s+(\w+)\s*=\s*pipe_fn\s*\.\s*write\s*\(", blk)
+        if wr:
+            v = wr.group(1)
+            splice_loop = bool(re.search(r"pending\s*=\s*pending\s*\.\s*saturating_sub\s*\(\s*%s\s*\)|pending\s*-=\s*%s\b" % (v, v), blk))
+    splice_breaks_on_zero = bool(re.search(r"if\s+len\s*>\s*0", arm_rawfd)) and bool(re.search(r"else\s*\{\s*break", arm_rawfd))
+    n_splice_writes = len(re.findall(r"pipe_fn\s*\.\s*write\s*\(", ch))
+    rawfd_shutdown = bool(re.search(r"if\s+have_rawfd\s*\{\s*pipe_fn\s*\.\s*shutdown\s*\(\s*\)", tail))
+    stream_shutdown = bool(re.search(r"dst\s*\.\s*stream\s*\{\s*s\s*\.\s*shutdown\s*\(\s*\)", tail))
+    frames_shutdown = bool(re.search(r"dst\s*\.\s*frames\s*\{\s*s\s*\.\s*shutdown\s*\(\s*\)", tail))
+    try:
+        pf = block_after(copy, r"impl\s+SpliceFn\s+for\s+PipeFn\s*\{")
+        sd = fn_body(pf, "shutdown")
+    except SystemExit:
+        sd = ""
+    shutdown_is_shut_wr = bool(re.search(r"libc\s*::\s*shutdown\s*\(\s*self\s*\.\s*dfd\s*\.\s*as_raw_fd\s*\(\s*\)\s*,\s*libc\s*::\s*SHUT_WR\s*\)", sd))
+    cb = fn_body(copy, "copy_bidi")
+    drain_both = len(re.findall(r"drain_buffers\s*\(", cb)) == 2 and before(cb, r"drain_buffers\s*\(\s*&mut\s+client\s*,\s*&mut\s+server", r"into_inner") and \
+        before(cb, r"drain_buffers\s*\(\s*&mut\s+server\s*,\s*&mut\s+client", r"into_inner")
+    db = fn_body(copy, "drain_buffers")
+    drain_ok = before(db, r"from\s*\.\s*buffer\s*\(\s*\)", r"write_all") and before(db, r"write_all\s*\(\s*left_over\s*\)", r"flush")
+    both_halves = len(re.findall(r"copy_half\s*\(", cb)) == 2 and bool(re.search(r"while\s+c2s\s*\.\s*is_none\s*\(\s*\)\s*\|\|\s*s2c\s*\.\s*is_none\s*\(\s*\)", cb))
+    B = lambda b: "true" if b else "false"
+    body = "(* GENERATED by gen/translate.py from src/copy.rs (copy_half, copy_bidi, drain_buffers).  Do not edit. *)\n"
+    body += "From Coq Require Import NArith.\n"
+    body += "Definition buffered_read_writeall_flush_break : bool := %s.\n" % B(ok_arms and buffered_ok)
+    body += "Definition splice_writes_until_pending_zero : bool := %s.\n" % B(splice_loop)
+    body += "Definition splice_breaks_on_zero_read : bool := %s.\n" % B(splice_breaks_on_zero)
+    body += "Definition splice_write_call_sites : N := %d%%N.\n" % n_splice_writes
+    body += "Definition rawfd_destination_shut_down : bool := %s.\n" % B(rawfd_shutdown and shutdown_is_shut_wr)
+    body += "Definition stream_destination_shut_down : bool := %s.\n" % B(stream_shutdown)
+    body += "Definition frames_destination_shut_down : bool := %s.\n" % B(frames_shutdown)
+    body += "Definition read_ahead_drained_both_ways_before_unwrap : bool := %s.\n" % B(drain_both and drain_ok)
+    body += "Definition bidi_runs_two_halves_until_both_done : bool := %s.\n" % B(both_halves)
+    return body
+
+
 def main(which=None):
     changed = []
-    gens = {"Gen_panics.v": lambda: gen_panics()[0], "Gen_profile.v": gen_profile, "Gen_ladder.v": gen_ladder, "Gen_reload.v": gen_reload, "Gen_lb.v": gen_lb, "Gen_callbacks.v": gen_callbacks}
+    gens = {"Gen_panics.v": lambda: gen_panics()[0], "Gen_profile.v": gen_profile, "Gen_ladder.v": gen_ladder, "Gen_reload.v": gen_reload, "Gen_lb.v": gen_lb, "Gen_callbacks.v": gen_callbacks, "Gen_relay.v": gen_relay}
     for name, fn in gens.items():
         if which and name not in which:
             continue
